@@ -42,6 +42,9 @@ def _iadd_cfgs():
             for d1, d2 in (("int64", "int64"), ("int64", "float64"), ("float64", "int64")):
                 out.append({"dim": dim, "m": m, "bins": "gapped" if m == 2 else "fixed", "d1": d1, "d2": d2})
     out.append({"dim": 1, "m": 2, "bins": "numpy", "d1": "int32", "d2": "int64"})
+    # the same bins described in two ways (a fixed-width grid and the array of its edges): still "the same bins"
+    out.append({"dim": 1, "m": 2, "bins": "fixed", "d1": "int64", "d2": "int64", "other_as": "numpy"})
+    out.append({"dim": 1, "m": 2, "bins": "fixed", "d1": "int64", "d2": "float64", "other_as": "static"})
     return out
 
 
@@ -56,7 +59,17 @@ class _iadd_same:
 
     def inputs(b):
         c = b.cfg
-        return dict(self=mk_hist(b, "h", c.dim, c.m, c.bins, c.d1), other=mk_hist(b, "o", c.dim, c.m, c.bins, c.d2))
+        me = mk_hist(b, "h", c.dim, c.m, c.bins, c.d1)
+        if getattr(c, "other_as", None):
+            v = bins_of(attr(me, "_binnings")[0])
+            if c.other_as == "numpy":
+                bn = b.obj(NPB, _consecutive=True, _bins=None, _numpy_bins=b.carray([v[0][0]] + [r for _, r in v], "float64"),
+                           _includes_right_edge=False, _adaptive=False)
+            else:
+                bn = b.obj(STB, _consecutive=None, _bins=b.carray([[l, r] for l, r in v], "float64"), _numpy_bins=None,
+                           _includes_right_edge=False, _adaptive=False)
+            return dict(self=me, other=hist1d(b, "o", bn, c.m, dtype=c.d2))
+        return dict(self=me, other=mk_hist(b, "o", c.dim, c.m, c.bins, c.d2))
 
     @ensures("contents_errors_missed_add")
     def _(a, old, result):
